@@ -273,9 +273,16 @@ class Repo:
                 continue
             for n in ast.walk(fi.node):
                 if isinstance(n, ast.BinOp) and isinstance(n.op, ast.Mod) and isinstance(n.left, ast.Constant) \
-                        and isinstance(n.left.value, str) and isinstance(n.right, ast.Dict) and '\n' in n.left.value:
-                    # only templates directly in this function (not nested defs)
-                    out.append(Template(fi, n))
+                        and isinstance(n.left.value, str) and '\n' in n.left.value and HOLE.search(n.left.value):
+                    right = n.right
+                    if isinstance(right, ast.Name):
+                        # '''...''' % params  with  params = {...}  assigned in the same function
+                        name = right.id
+                        for a in ast.walk(fi.node):
+                            if isinstance(a, ast.Assign) and isinstance(a.targets[0], ast.Name) and a.targets[0].id == name and isinstance(a.value, ast.Dict):
+                                right = a.value
+                    if isinstance(right, ast.Dict):
+                        out.append(Template(fi, n, right))
         # de-duplicate (ast.walk of outer function also sees nested ones)
         uniq = {}
         for t in out:
@@ -295,12 +302,13 @@ HOLE = re.compile(r'%\((\w+)\)([sdi])')
 class Template:
     """one ``'''...''' % {...}`` template: text, holes, values, parsed AST"""
 
-    def __init__(self, func, node):
+    def __init__(self, func, node, mapping=None):
         self.func = func
         self.node = node
         self.text = node.left.value
         self.values = {}
-        for k, v in zip(node.right.keys, node.right.values):
+        mapping = mapping if mapping is not None else node.right
+        for k, v in zip(mapping.keys, mapping.values):
             if isinstance(k, ast.Constant) and isinstance(k.value, str):
                 self.values[k.value] = v
         self.holes = [m.group(1) for m in HOLE.finditer(self.text)]
